@@ -5,6 +5,8 @@
 // Trusted (A3): #[derive(PartialOrd)] on StyleOrigin orders by declaration position; bool::partial_cmp is false < true.
 use vstd::prelude::*;
 use vstd::std_specs::cmp::PartialOrdSpec;
+macro_rules! html_trace { ($($t:tt)*) => {} }
+macro_rules! html_trace_quiet { ($($t:tt)*) => {} }
 verus! {
 
 //@item src/lib.rs :: enum StyleOrigin
